@@ -75,7 +75,7 @@ func (m *Machine) hbRelease(key interface{}) {
 
 func (m *Machine) raceActive() bool {
 	s := m.sched
-	return s != nil && s.multi && m.ps != nil && s.raceOn
+	return s != nil && s.multi && m.ps != nil && s.raceOn && m.ghostDepth == 0
 }
 
 func isLocalAlloc(v ssa.Value) bool {
